@@ -142,6 +142,12 @@ where
             bump(&self.close_saw_span);
             if s.metadata().name().len() != 2 { bump(&self.close_bad_meta); }
         }
+        // optional probe: can the Context handed to on_close see span RL_PROBE? (0 = off)
+        let pr = RL_PROBE.load(Ordering::Relaxed);
+        if pr != 0 {
+            let saw = ctx.span(&span::Id::from_u64(pr)).is_some() as u8;
+            if self.id == 1 { RL_PROBE_SAW1.store(saw, Ordering::Relaxed); } else { RL_PROBE_SAW2.store(saw, Ordering::Relaxed); }
+        }
         if self.id == 1 {
             let n = ld(&CLOSE_N);
             if n < 4 { CLOSE_LOG[n].store(id.into_u64(), Ordering::Relaxed); }
@@ -154,6 +160,9 @@ where
 /// ids in the order layer 1 saw them close
 pub static CLOSE_LOG: [AtomicU64; 4] = [AtomicU64::new(0), AtomicU64::new(0), AtomicU64::new(0), AtomicU64::new(0)];
 pub static CLOSE_N: AtomicUsize = AtomicUsize::new(0);
+pub static RL_PROBE: AtomicU64 = AtomicU64::new(0);
+pub static RL_PROBE_SAW1: AtomicU8 = AtomicU8::new(2);
+pub static RL_PROBE_SAW2: AtomicU8 = AtomicU8::new(2);
 pub static L1: RecLayer = RecLayer::new(1);
 pub static L2: RecLayer = RecLayer::new(2);
 pub static L3: RecLayer = RecLayer::new(3);
